@@ -14,11 +14,11 @@ _ENGINE_CACHE: dict[int, Engine] = {}
 
 
 def get_engine(prog: Program) -> Engine:
-    if id(prog) not in _ENGINE_CACHE:
+    if getattr(prog, '_cache_e1', None) is None:
         e = Engine(prog)
         e.run()
-        _ENGINE_CACHE[id(prog)] = e
-    return _ENGINE_CACHE[id(prog)]
+        prog._cache_e1 = e
+    return prog._cache_e1
 
 
 BUILDER_CLASSES = {"TensorDiagram": {"__init__", "add_node", "add_edge"}}
